@@ -216,7 +216,7 @@ func outerFieldOf(a ssa.Value, recvType string) (string, bool) {
 // sectionCalls: the ordered list of receiver FIELD names on which `method` is called in fn (fields of fn's receiver).
 func sectionCalls(p *eng.Prog, fn *ssa.Function, recvType string, method string) []string {
 	var out []string
-	for _, b := range fn.Blocks { // block order = source order for these straight-line codecs (checked by the caller through dominance)
+	for _, b := range eng.BlocksT(fn) { // block order = source order for these straight-line codecs (checked by the caller through dominance)
 		for _, in := range b.Instrs {
 			cl, ok := in.(*ssa.Call)
 			if !ok {
@@ -236,7 +236,7 @@ func sectionCalls(p *eng.Prog, fn *ssa.Function, recvType string, method string)
 
 func inDominanceOrder(fn *ssa.Function, method, recvType string) bool {
 	var calls []ssa.Instruction
-	for _, b := range fn.Blocks {
+	for _, b := range eng.BlocksT(fn) {
 		for _, in := range b.Instrs {
 			if cl, ok := in.(*ssa.Call); ok {
 				if f := cl.Common().StaticCallee(); f != nil && f.Name() == method && f.Signature.Recv() != nil && len(cl.Common().Args) > 0 {
@@ -248,7 +248,18 @@ func inDominanceOrder(fn *ssa.Function, method, recvType string) bool {
 		}
 	}
 	for i := 1; i < len(calls); i++ {
-		if !eng.DominatedBy(fn, calls[i], []eng.Site{{Fn: fn, Instr: calls[i-1]}}, nil) {
+		g := calls[i].Parent()
+		a, b := calls[i-1], calls[i]
+		if a.Parent() != g { // one of the two sits in a helper: judged at the helpers' calls in fn
+			g = fn
+			if t := eng.TopOf(fn, eng.Site{Fn: a.Parent(), Instr: a}); t != nil {
+				a = t
+			}
+			if t := eng.TopOf(fn, eng.Site{Fn: b.Parent(), Instr: b}); t != nil {
+				b = t
+			}
+		}
+		if !eng.DominatedBy(g, b, []eng.Site{{Fn: g, Instr: a}}, nil) {
 			return false
 		}
 	}
@@ -481,7 +492,7 @@ func pooledTrieReloaded(c *eng.Ctx) {
 			c.Undecided("trie is not a struct")
 		}
 		assigned := map[string]bool{}
-		for _, b := range f.Blocks {
+		for _, b := range eng.BlocksT(f) {
 			for _, in := range b.Instrs {
 				switch x := in.(type) {
 				case *ssa.Store:
@@ -626,8 +637,9 @@ func bucketIsTheUnionOfItsTries(c *eng.Ctx) {
 		// the re-build takes key AND value of every position of every pending trie
 		k := c.One(f, eng.AnyCallTo(trieP+"PrefixIterator.Key"), "itr.Key()")
 		v := c.One(f, eng.AnyCallTo(trieP+"PrefixIterator.Value"), "itr.Value()")
-		everyIterationPasses(c, f, k, "rebuild:every-key-taken", "every key of a pending trie goes into the re-built trie")
-		everyIterationPasses(c, f, v, "rebuild:every-id-taken", "every id of a pending trie goes into the re-built trie, in step with its key")
+		// (the collecting loop may sit in a helper of Write: each site is judged in the function it is written in)
+		everyIterationPasses(c, k.Instr.Parent(), k, "rebuild:every-key-taken", "every key of a pending trie goes into the re-built trie")
+		everyIterationPasses(c, v.Instr.Parent(), v, "rebuild:every-id-taken", "every id of a pending trie goes into the re-built trie, in step with its key")
 		bw := c.One(f, eng.AnyCallTo(modelP+"TrieBucketBuilder.Write"), "builder.Write(keys, ids)")
 		okR := false
 		for _, r := range eng.SuccessReturns(f) {
@@ -743,5 +755,76 @@ func sortedTogetherAndReset(c *eng.Ctx) {
 			}
 		}
 		c.Check(okWin, "same-window-of-keys-and-ids", bd.Instr, w, "a block is built from the same index window of the sorted keys and of the sorted ids", "")
+		// the windows cover every key: each window ends at its start plus the stride the NEXT window starts from (contiguous), and
+		// the end is bounded by the number of keys (the last block is cut at len(keys), never short of it)
+		if s1, ok := eng.Unwrap(a[0]).(*ssa.Slice); ok && s1.Low != nil && s1.High != nil {
+			lenBound := false
+			var strideEnd []ssa.Value
+			for _, src := range leafSources(s1.High) {
+				if cl, isC := src.(*ssa.Call); isC {
+					if bi, isB := cl.Common().Value.(*ssa.Builtin); isB && bi.Name() == "len" {
+						lenBound = true
+						continue
+					}
+					if bi, isB := cl.Common().Value.(*ssa.Builtin); isB && bi.Name() == "min" {
+						for _, ma := range cl.Common().Args {
+							if lc, isL := eng.Unwrap(ma).(*ssa.Call); isL {
+								if lb, isLB := lc.Common().Value.(*ssa.Builtin); isLB && lb.Name() == "len" {
+									lenBound = true
+									continue
+								}
+							}
+							strideEnd = append(strideEnd, ma)
+						}
+						continue
+					}
+				}
+				strideEnd = append(strideEnd, src)
+			}
+			c.Check(lenBound, "last-block-reaches-the-last-key", bd.Instr, w,
+				"the end of a block's window is cut at len(keys): with a window size that does not divide the key count the last keys are otherwise in no block - they are the LARGEST keys of the bucket and are silently not written",
+				"the window end never takes the value len(keys): "+p.Desc(s1.High))
+			// contiguity: end = start + S where start = i * S (or start advances by S)
+			contiguous := len(strideEnd) > 0
+			for _, e := range strideEnd {
+				bo, isB := eng.Unwrap(e).(*ssa.BinOp)
+				if !isB || bo.Op != token.ADD {
+					contiguous = false
+					continue
+				}
+				st, sz := bo.X, bo.Y
+				if !eng.SameValue(st, s1.Low) {
+					st, sz = sz, st
+				}
+				if !eng.SameValue(st, s1.Low) {
+					contiguous = false
+					continue
+				}
+				// the start is i * S' with S' the same size (same constant / same field), or a counter advanced by it
+				okStride := false
+				if mu, isM := eng.Unwrap(s1.Low).(*ssa.BinOp); isM && mu.Op == token.MUL {
+					for _, f2 := range []ssa.Value{mu.X, mu.Y} {
+						if eng.SameValue(f2, sz) || p.Desc(f2) == p.Desc(sz) && p.Desc(sz) != "?" {
+							okStride = true
+						}
+					}
+				}
+				if ph, isP := eng.Unwrap(s1.Low).(*ssa.Phi); isP {
+					for _, pe := range ph.Edges {
+						if b2, isB2 := eng.Unwrap(pe).(*ssa.BinOp); isB2 && b2.Op == token.ADD && (p.Desc(b2.Y) == p.Desc(sz) || p.Desc(b2.X) == p.Desc(sz)) {
+							okStride = true
+						}
+						if eng.SameValue(pe, s1.High) {
+							okStride = true // next start = this end
+						}
+					}
+				}
+				if !okStride {
+					contiguous = false
+				}
+			}
+			c.Check(contiguous, "windows-are-contiguous", bd.Instr, w,
+				"a window is [start, start+S) and the next window starts S further (one size for stride and length): no key between two blocks is skipped", "window "+p.Desc(s1.Low)+" .. "+p.Desc(s1.High))
+		}
 	})
 }
